@@ -4,6 +4,7 @@ import NemoVerif.Models.GroupExpand
 import NemoVerif.Models.GroupVM
 import NemoVerif.Models.GroupExpandAwait
 import NemoVerif.Models.GroupExpandWhen
+import NemoVerif.Models.GroupFlowVM
 
 namespace NemoVerif.Drive.C07
 open Lean NemoVerif NemoVerif.Drive NemoVerif.Dnf NemoVerif.GroupExpand
@@ -131,6 +132,24 @@ def handle (op : String) (j : Json) : Except String Json := do
     pure (Json.mkObj [("prims", Json.arr (mine.map primToJson).toArray),
       ("dnf", Json.arr (cs.map fun c => clausesToJson (toDnf (normalize c.1))).toArray),
       ("readback", match rb with | none => .null | some ds => Json.arr (ds.map clausesToJson).toArray)])
+  | "flow" =>
+    -- `await g` / `when g` over flows with Finished / Failed events: per sequence, per event the output
+    -- (0 quiet, 1 marker, 2 failure path) and the flows of the child instances still running.
+    -- event encoding: n < 100 = the instances of flow n finish, n ≥ 100 = the instances of flow n-100 fail
+    let g ← gOfJson (← j.getObjVal? "g")
+    let d := toDnf (normalize g)
+    let seqs ← (← j.getObjVal? "seqs").getArr?
+    let rec go (st : GroupFlow.FSt) : List GroupFlow.FEv → List Json
+      | [] => []
+      | e :: es =>
+        let r := GroupFlow.step st e
+        Json.mkObj [("o", nat (match r.2 with | .quiet => 0 | .marker => 1 | .failed => 2)),
+          ("ch", natsToJson (r.1.children.map (·.2)))] :: go r.1 es
+    let outs ← seqs.toList.mapM fun s => do
+      let es ← natsOfJson s
+      let evs := es.map fun n => if n ≥ 100 then GroupFlow.FEv.fail (n - 100) else GroupFlow.FEv.fin n
+      pure (Json.arr (go (GroupFlow.init d) evs).toArray)
+    pure (Json.mkObj [("runs", Json.arr outs.toArray), ("init", natsToJson ((GroupFlow.init d).children.map (·.2)))])
   | "vm" =>
     -- head-level machine on the clauses of `normalize g`: per sequence (with its recorded tie-breaks) the marker flags
     -- and the heads (position, status) after every event
